@@ -4,25 +4,6 @@
 (* the specification says are sent (canonical host, trusted?, credentials?, method, body,   *)
 (* path).  Menus are chosen by the .cfg: exhaustive for short chains, -simulate for long.   *)
 EXTENDS Redirect, Json
-AllInits == { id \in SpellIds : SpellTab[id].kind = "ok" }
-AllTargets == SpellIds
-AllStatuses == {301, 302, 303, 307, 308}
-AllForms == {"abs", "absuc", "noscheme", "hostrel", "rel"}
-AllMethods == {"GET", "HEAD", "POST", "PUT"}
-
-\* reduced menus for exhaustive two-hop chains
-KeyInits == {"same", "upport", "sub", "ip6"}
-KeyTargets == {"same", "port", "sub", "subsub", "prefix", "suffix", "atevil", "other", "ip6port", "ip6look", "pctdot"}
-KeyStatuses == {302, 303, 307}
-KeyForms == {"abs", "noscheme", "rel"}
-KeyMethods == {"GET", "POST"}
-
-\* one long chain for the fixed limit (16) of the Get / Post helpers
-LoopInits == {"same"}
-LoopTargets == {"sub"}
-LoopStatuses == {307}
-LoopForms == {"abs"}
-
 Obs == [ init |-> [id |-> sc.init, url |-> "http://" \o SpellTab[sc.init].text \o "/d/r0",
                    host |-> SpellTab[sc.init].canon, method |-> sc.method, max |-> sc.max],
          hops |-> hops, sent |-> sent, result |-> result ]
